@@ -69,8 +69,8 @@ def firstBad : List (Nat × Nat) → Option Nat
 /-- §6.5.3: values are processed in the order they appear; unknown identifiers are ignored -/
 def applyPair (s : SettingsVal) (p : Nat × Nat) : SettingsVal :=
   if p.1 = 1 then { s with tableSize := p.2, hasTableSize := true }
-  else if p.1 = 2 then { s with enablePush := p.2 != 0 }
-  else if p.1 = 3 then { s with maxStreams := p.2 }
+  else if p.1 = 2 then { s with enablePush := p.2 != 0, hasPush := true }
+  else if p.1 = 3 then { s with maxStreams := p.2, hasMaxStreams := true }
   else if p.1 = 4 then { s with windowSize := p.2, hasWindowSize := true }
   else if p.1 = 5 then { s with frameSize := p.2 }
   else if p.1 = 6 then { s with headerSize := p.2 }
